@@ -622,6 +622,10 @@ def to_str(a):
         return "True" if a else "False"
     if isinstance(a, Sym):
         return opaque_text("str")
+    if isinstance(a, BaseException):
+        from .values import contains_sym
+        if contains_sym(a.args):
+            return opaque_text("excstr")
     return str(a)
 
 
